@@ -33,6 +33,11 @@ func init() {
 		Assumptions: commonAssumptions,
 		Rules: []Rule{{"nilderef", ruleNilDeref}, {"nil-element", ruleNilProducer}, {"support-currentPage", ruleSupportCurrentPage}, {"bounds", ruleBounds}, {"divzero", ruleDivZero}, {"typeassert", ruleTypeAssert}, {"explicit-panic", rulePanicCalls}, {"support-framerate", ruleSupportFramerate}, {"loops", ruleLoops}},
 	})
+	register(&PropSpec{ID: "C05",
+		Explanation: "Structural agreement clauses of the EBU STL codec, decided by evaluating constants and literal tables of /repo and comparing sibling implementations: (T3) the 1024-byte GSI and 128-byte TTI layouts — writer part widths and reader slice offsets extracted per field — agree field by field, sum to the block sizes and do not overlap; (T2) every character the writer tables encode is decoded back to itself by the reader table, printable ASCII the writer passes through is decoded as itself, no table has duplicate keys or values; (T4) justification code maps are mutually inverse, frame-rate table rows are 8-byte keys with positive rates, STL and TTML language tables cover the same languages; (A5) GSI ↔ Metadata wiring agrees in both directions; every division by the frame rate is guarded. Not decided: timecode quantisation, diacritic composition, style runs, teletext-vs-open display-standard behaviour.",
+		Assumptions: commonAssumptions,
+		Rules: []Rule{{"layouts", ruleSTLLayouts}, {"char-tables", ruleSTLCharTables}, {"code-maps", ruleSTLCodeMaps}, {"metadata-wiring", ruleSTLMetadataWiring}, {"support-framerate", ruleSupportFramerate}},
+	})
 	register(&PropSpec{ID: "C07",
 		Explanation: "Structural clauses of any-to-any conversion: (a) the extension tables of Open and Subtitles.Write are extracted from the SSA switch and must agree (same codec family per extension, .ts read-only), be case-insensitive and default to ErrInvalidExtension; (b) every writer returns before its first Write/Encode when the list is empty; (c) the CLI sub-command table equals the documented one (operation, flag variables in order, then Write(-o)); (d) no writer dereferences Metadata, styles' or regions' inline style or any optional pointer without a nil test (E1 restricted to the writers' closure). Not decided: cue preservation across the 35 format pairs and operation sequences.",
 		Assumptions: commonAssumptions,
